@@ -27,6 +27,7 @@ EARLY = [
     "λ2(nx);†", "3(vX)", "3λ:[‹x];†", "2(1{X})", "2(2(X)X)", "@h|2(X)n;@h;", "λ2(X)X;†", "2(λ1[X];†x)", "3ɾƛ2(X);L", "1{λX;†X}",
     "0{›:1=[x]:3=[X]}", "0{›:2<[x]X}", "2(0{›:1=[x]:3=[X]}n)", "λ0{›:1=[x]:3=[X]}n;†", "3ɾ…,", "3ɾ→a ←a L_←a ,", "3ɾ→a 2(←a ,)", "3ɾ'4>;,",
     "⟨⟩", "⟨1|2_⟩", "⟨_⟩", "⟨1|⟩_ 4`5+`Ė", "7λ3(1 2v+X);†", "3(1 2v+X)", "λ0|5X;†", "λ0|X;†", "4 5λ2|X;†", "1(1→c {X←c |0→c })", "2(1→c {x←c |0→c })", "λ1→c {X←c |0→c };†", "1(0 1{X|})", "@h:1|X;4@h;", "@h:a|←a X;4@h;", "7λλ0|1X;†__;†",
+    "3(i|X)", "3(i|nx)", "2(i|←i [X])", "5λ3(i|X)n;†", "2(3(i|x)n,)", "3(i|n,)", "@h|2(i|X)n;@h;", "2(i|2(j|X)n,)",
 ]
 PROBES = ["n", "λn;†", "2(n)", "`n`Ė", "@p|n;@p;", "2ɾƛn;L"]
 MENU = ATOMS + STRUCTS + EARLY
@@ -42,6 +43,7 @@ CHAIN = [
     ("lambda0", "λ0|", ";†", False),              # a lambda called with zero arguments
     ("lambda2", "4 5λ2|", ";†", False),
     ("function-args", "4 5@z:1:b|", ";@z;", False),
+    ("for-named", "2(j|", ")", True),             # a for loop with a named variable
 ]
 LEAVES = ["X", "x", "n", "n,", "1X2", ":[X]", "1 2v+X", "[X]9"]
 
@@ -217,7 +219,8 @@ def run(tier, seed):
     rep = Report(PROP, tier, seed, "model_checking")
     quick = tier == "quick"
     cd = 4
-    base = CHAIN[:9]   # (CHAIN[9:] = while-forever, while-cond, lambda0, lambda2, function-args)  depth 4 over the nine basic elements; the four extra ones (while condition, lambda arities, function
+    base = CHAIN[:9]   # (CHAIN[14] = for-named is an extra element too)
+    # (CHAIN[9:] = while-forever, while-cond, lambda0, lambda2, function-args)  depth 4 over the nine basic elements; the four extra ones (while condition, lambda arities, function
     extra = CHAIN[9:]  # arguments) are combined with everything up to depth 3
     old_leaves, new_leaves = [LEAVES[0], LEAVES[1], LEAVES[2], LEAVES[4]], [LEAVES[3], LEAVES[5]] + LEAVES[6:]
     sh = [([c], 1) for c in CHAIN] + [([(a, b)], cd, old_leaves) for a in base for b in base]
